@@ -205,10 +205,11 @@ type recorder[C any] struct {
 	curJSON   atomic.Pointer[[]byte]
 	curFile   *os.File
 	stop      chan struct{}
+	suffix    string
 }
 
 func (r *recorder[C]) base() string {
-	return filepath.Join(r.env.Work, fmt.Sprintf("%s.s%d", r.spec.Name, r.env.Shard))
+	return filepath.Join(r.env.Work, fmt.Sprintf("%s.s%d%s", r.spec.Name, r.env.Shard, r.suffix))
 }
 
 func cpuNow() int64 {
@@ -442,12 +443,41 @@ func unitSeed(e Env, name string) uint64 {
 	return s
 }
 
-// Check runs one unit under the current environment.
-func Check[C any](t *testing.T, s *Spec[C]) {
-	e := GetEnv()
+func newRecorder[C any](s *Spec[C], e Env) *recorder[C] {
 	r := &recorder[C]{spec: s, env: e, start: time.Now(), hashes: map[uint64]struct{}{}, stop: make(chan struct{})}
 	r.p = Partial{Property: s.Property, Unit: s.Name, Shard: e.Shard, Tier: e.Tier, Seed: e.Seed, Rule: s.Rule,
 		Labels: map[string]int{}, Known: map[string]KnownHit{}, Assumes: s.Assumes}
+	return r
+}
+
+// Fuzz runs the unit's generator and oracle as a native Go fuzz target (engine E6): the fuzzer's bytes drive
+// rapid's generators (rapid.MakeFuzz), so the same Case type, Run and oracle are used under coverage guidance.
+// Worker processes flush their evidence fragment periodically (they are killed when the fuzz time is over).
+func Fuzz[C any](f *testing.F, s *Spec[C]) {
+	e := GetEnv()
+	r := newRecorder(s, e)
+	r.suffix = fmt.Sprintf(".fz%d", os.Getpid())
+	r.p.Rule = "native go fuzzing (coverage-guided bytes -> rapid generators via rapid.MakeFuzz): " + s.Rule
+	go r.watchdog()
+	n := 0
+	f.Fuzz(rapid.MakeFuzz(func(rt *rapid.T) {
+		c := s.Gen(rt)
+		out := r.one(c)
+		n++
+		if n%500 == 0 {
+			r.flushPartial(true)
+		}
+		if out.Violation != "" {
+			r.flushPartial(true)
+			rt.Fatalf("VIOLATION in %s", s.Name)
+		}
+	}))
+}
+
+// Check runs one unit under the current environment.
+func Check[C any](t *testing.T, s *Spec[C]) {
+	e := GetEnv()
+	r := newRecorder(s, e)
 	_ = os.Remove(r.base() + ".fail.json")
 	_ = os.Remove(r.base() + ".partial.json")
 	go r.watchdog()
